@@ -119,7 +119,14 @@ CHECKS["C13"] = dict(
          "programs under ShardNum 2/4/1024. Concurrent mixes of MSET/RENAME/LMOVE/SMOVE/DEL/EXISTS/MGET with single-key traffic run under a 20 s watchdog "
          "with atomicity invariants at quiescence and under -race. Exec.table_atomicity_partial (Props/C05Atomic.lean): every multi-key command of the real "
          "table, as ONE two-phase block over exactly the keys of Exec.footprint, is atomic under every interleaving; that the Go executors lock exactly "
-         "those stripes, in write mode where the footprint says so, is checked on every traced command (Driver.checkFootprint against Exec.lockPlan).",
+         "those stripes, in write mode where the footprint says so, is checked on every traced command (Driver.checkFootprint against Exec.lockPlan). "
+         "Deadlock freedom is instantiated for the real table as well (Props/C13Table.lean): Exec.lockProg is the regular expression of all lock-scope "
+         "sequences the executor of a call can produce (LockMulti = sorted de-duplicated stripes, CheckTTL's own scopes, one scope per key in the "
+         "DEL/EXISTS/MGET/BLPOP loops, early returns after an expired CheckTTL); lockSeq_ascending: every scope of every run is non-empty, strictly "
+         "ascending and duplicate-free for EVERY stripe function; table_deadlock_free: any number of clients running any command lists can always take "
+         "a step from every reachable lock state (DL.progress + DL.step_ok). Tie: the lock scopes of every traced command, in order, must be a run of "
+         "lockProg under the observed stripe table (Driver.checkLockOrder; the matcher is proved exact, accepts_iff_mem_runs), with a negative control "
+         "that removes one scope while leaving the locked set unchanged.",
     note="Partial: scheduler/runtime not modelled; the concurrent runs are exploration; DEL/EXISTS/MGET are one block per key in Go (not atomic across keys). "
          "Trusted: Lean kernel, harness, hook H2.",
 )
